@@ -351,3 +351,13 @@ CLAIMED["C03"]["text"] += (" Eighth round: Schema/E2ETypes.v runs the rule-free 
                            "document text -> JSON scanner -> events -> event machine) against Validate, and C03_typed_texts_accept_iff_denotation / C03_typed_texts_not_stuck carry the machine theorem to the texts "
                            "(with a kernel-checked example that the hypotheses are met).")
 CLAIMED["C08"]["text"] += (" Eighth round: every rule-set case is repeated with a flag that says nothing (const: false / nullable: false) written first and last in the rule-set - same expected verdict (fix a4b2d4a).")
+CLAIMED["C02"]["text"] += (" Ninth round: the library's own RFC 3339 parser (isRFC3339DateTime, fix 3e85282) is modelled (Formats.datetime_ok) and PROVED equal to a declarative specification written from RFC 3339 "
+                           "section 5.6 (Text/FormatsSpec.v: DateTime, zone_spec): C02_datetime_ok_iff, C02_zone_offset_iff, with the leap-second rule (a second of 60 only as the last second of a UTC day) and "
+                           "kernel-checked accept/refuse examples; the check compares library, an oracle written from the grammar and the extracted model on random date-times.")
+CLAIMED["C13"]["text"] += (" Ninth round - the schema half is now proved on plain JSON: C13_schema_comments_are_transparent (load_mirrors_json_with_comments: with blanks, # line comments and ### block comments in "
+                           "EVERY gap of a value tree of any size the loader yields the mirror tree of the value, the same as without comments; the last gap may end inside a line comment), its AST twin, and "
+                           "C13_comments_do_not_change_verdicts / C13_comments_invariant (the verdict of every document is the one of the comment-free text). Corpus pairs for multi-line annotations ending a line "
+                           "(fix 6b1304a) and for block comments (fix 7ac9eeb).")
+CLAIMED["C07"]["text"] += (" Ninth round: a library error without a position is a violation (class NOPOS; fix 6051305: Validate of a blank document), the pinned bare recursion error aside; every three-file case also "
+                           "runs with unnamed files (fix 3070215: an error was moved to the wrong file when the right one had an empty name).")
+CLAIMED["C04"]["text"] += (" Ninth round: container alternatives next to scalar ones inside or rule-sets.")
